@@ -147,19 +147,27 @@ RANKING_DRAWS = {
 }
 
 
-@shape_rule
 def g2_draw_table(ctx):
     prog = ctx.prog
     for qn, want in RANKING_DRAWS.items():
         f = prog.find_func(qn)
         got = []
+        # population / size are compared through single-assignment temporaries (cands = list(interval.keys()); ... choice(cands, len(cands)))
+        Ni = Normalizer(f.node, inline=True, int_atoms=lambda a: True)
+
+        def nk(txt):
+            try:
+                return Ni.key(ast.parse(txt, mode="eval").body)
+            except SyntaxError:
+                return txt
         for d in align.draws_in(prog, f):
             if d.kind != "numpy.random.choice":
                 continue
             rep = d.kw.get("replace")
-            got.append((astx.u(d.pop), (None if rep is None else (astx.const(rep) if astx.is_const(rep) else astx.u(rep))), astx.u(d.kw.get("size")) if d.kw.get("size") is not None else None, d.call))
+            got.append((Ni.key(d.pop), (None if rep is None else (astx.const(rep) if astx.is_const(rep) else astx.u(rep))), Ni.key(d.kw.get("size")) if d.kw.get("size") is not None else None, d.call))
         for pop, rep, size in want:
-            hit = [g for g in got if g[0] == pop]
+            size = nk(size) if size is not None else None
+            hit = [g for g in got if g[0] == nk(pop)]
             if not hit:
                 ctx.violated(f, f.node, f"{f.short}: draw over `{pop}`", "draw site not found")
                 continue
